@@ -65,6 +65,25 @@ def seed_corpus(chk, root):
         d = os.path.join(base + str(n), "data/dbd_gA/v1.0/Test/g0")
         gfiles.append((1, open(os.path.join(d, "tab_pdf.data"), "rb").read()))
         gfiles.append((0, open(os.path.join(d, "tab_ocdf.data"), "rb").read()))
+    # tables whose grid reaches beyond the maximum energy sum (E_min + E_max > E_sum, as the documented real tables): exact zeros on the
+    # nodes above it - and variants with one such node positive, which the loader's own rule refuses
+    for n in (3, 6):
+        gadata.synth(base + "x" + str(n), "Test", "g0", rng, n=n, shape="phase", layout="exceeds")
+        d = os.path.join(base + "x" + str(n), "data/dbd_gA/v1.0/Test/g0")
+        t = open(os.path.join(d, "tab_pdf.data"), "rb").read()
+        gfiles.append((1, t))
+        lines = t.split(b"\n")
+        rows = [i for i, l in enumerate(lines) if l and not l.startswith(b"#") and not l.startswith(b"Probability") and len(l.split()) >= 1 and i > 3]
+        for ri in rows:
+            toks = lines[ri].split()
+            zeros = [j for j, v in enumerate(toks) if float(v) == 0.0]
+            if zeros:
+                for j in (zeros[0], zeros[-1]):
+                    tk = list(toks)
+                    tk[j] = b"1.0000000e-03"
+                    ls = list(lines)
+                    ls[ri] = b" ".join(tk) + b" "
+                    gfiles.append((1, b"\n".join(ls)))
     k = 0
     # structure-preserving degenerate tables: right header, right row lengths, but the values all zero / one positive corner node /
     # denormal / equal (the generic mutators practically never produce these)
@@ -259,7 +278,17 @@ int main() {
       if (bxdecay0::dbd_mode_from_label(kv.second.unique_label) != kv.first) { std::cout << "PREDICATE label does not map back: " << kv.second.unique_label << "\n"; return 3; }
       if (kv.second.dbd_mode != kv.first) { std::cout << "PREDICATE record/key mismatch\n"; return 3; }
     }
-    std::cout << "LOADED " << b.size() << ' ' << d.size() << ' ' << m.size() << "\n";
+    // what was loaded is then used: the accessors of the mode catalogue for every identifier an application may hold (a mode the
+    // loaded list does not contain must be answered by an exception or a sentinel, never by reading past the catalogue)
+    long answered = 0;
+    for (int k = 0; k <= 31; k++) { // every value the enumeration type can hold
+      try { answered += (long)bxdecay0::dbd_mode_label((bxdecay0::dbd_mode_type)k).size(); } catch (std::exception &) {}
+      try { answered += (long)bxdecay0::dbd_mode_description((bxdecay0::dbd_mode_type)k).size(); } catch (std::exception &) {}
+      try { answered += (long)bxdecay0::dbd_legacy_mode((bxdecay0::dbd_mode_type)k); } catch (std::exception &) {}
+      try { answered += (long)bxdecay0::dbd_supports_esum_range((bxdecay0::dbd_mode_type)k); } catch (std::exception &) {}
+      try { answered += (long)bxdecay0::dbd_mode_from_legacy_modebb((bxdecay0::legacy_modebb_type)k); } catch (std::exception &) {}
+    }
+    std::cout << "LOADED " << b.size() << ' ' << d.size() << ' ' << m.size() << ' ' << (answered != -12345) << "\n";
   } catch (std::exception & x) { std::cout << "ERROR " << x.what() << "\n"; return 0; }
   return 0;
 }
@@ -271,6 +300,16 @@ def catalogue_cases(chk, root, ncases):
     src = os.path.join(root, "catrunner.cc")
     open(src, "w").write(RUNNER)
     exe = build.harness("asan", "c15_catrunner", [src])
+    # the same runner with the catalogue code compiled in libstdc++ debug mode (checked iterators): only the three sources it needs
+    pb = build.build("plain", targets=("BxDecay0",))
+    reloc = os.path.join(root, "binreloc.o")
+    rcc, _, errc = run(["gcc", "-O1", "-g", "-I" + os.path.join(pb, "bxdecay0"), "-I" + pb, "-c", os.path.join(REPO, "bxdecay0/BinReloc.c"), "-o", reloc], timeout=300)
+    if rcc != 0:
+        chk.inconclusive_("could not compile BinReloc.c for the debug-mode runner: %s" % errc[-300:])
+    exe_dbg = build.harness("stldbg", "c15_catrunner_dbg",
+                            [src, os.path.join(REPO, "bxdecay0/bb_utils.cc"), os.path.join(REPO, "bxdecay0/utils.cc"), os.path.join(pb, "bxdecay0/resource.cc"),
+                             os.path.join(pb, "bxdecay0/relocatable_lib.cc")],
+                            extra_flags="-I%s -I%s -I%s" % (pb, os.path.join(pb, "bxdecay0"), os.path.join(REPO, "bxdecay0")), objects=(reloc,), link_bx=False)
     files = ["background_isotopes.lis", "dbd_isotopes.lis", "dbd_modes.lis"]
     orig = {f: open(os.path.join(REPO, "resources/description", f), "rb").read() for f in files}
     hostile = [b"", b"-1", b"0", b"25", b"2147483648", b"99999999999999999999", b"nan", b"\x00", b"#", b"1 1", b"\xff\xfe", b"1e9"]
@@ -314,6 +353,8 @@ def catalogue_cases(chk, root, ncases):
                 ls[k] = b" ".join(toks)
                 cases.append((len(cases), "dbd_modes.lis", b"\n".join(ls)))
 
+    cases.append((len(cases), "dbd_modes.lis", orig["dbd_modes.lis"]))   # the shipped lists themselves
+
     def one(case):
         i, f, content = case
         d = os.path.join(root, "res%05d" % i)
@@ -321,6 +362,8 @@ def catalogue_cases(chk, root, ncases):
         for g in files:
             open(os.path.join(d, "description", g), "wb").write(content if g == f else orig[g])
         rc, out, err = run([exe], timeout=60, env=build.lib_env("asan", {"BXDECAY0_RESOURCE_DIR": d}))
+        if rc == 0:
+            rc, out, err = run([exe_dbg], timeout=60, env=build.lib_env("plain", {"BXDECAY0_RESOURCE_DIR": d}))
         shutil.rmtree(d, ignore_errors=True)
         return i, f, content, rc, out, err
 
